@@ -341,10 +341,10 @@ theorem cited_theorems_exist :
       decodeString_never_panics, normalize_never_panics, decodeCertificates_terminates]) = true := by decide +kernel
 
 /-- The two documented programmer-misuse panics that live in the anchored files (`NewParser` with
-two optionals, `cipher.AEAD` `Seal`/`Open` with a wrong-size nonce) are in the table as such, and
-nothing else is excused that way. -/
+two optionals, `cipher.AEAD` `Seal` with a wrong-size nonce) are in the table as such, and nothing
+else is excused that way — in particular not `Open`, whose nonce is an input. -/
 theorem documented_misuse_listed :
-    Inventory.misuseFns = ["cron.NewParser", "crypto/aescbcaead.aesCBCAEAD.Seal", "crypto/aescbcaead.aesCBCAEAD.Open"] := by
+    Inventory.misuseFns = ["cron.NewParser", "crypto/aescbcaead.aesCBCAEAD.Seal"] := by
   decide +kernel
 
 end Kit.C07
